@@ -34,6 +34,9 @@ NEG_CONTROLS = [
     ("C12_Gen", "C12_Gen_Buggy_NoCanonical", "TagModelMeetsProperty", True),
     ("C12_Gen", "C12_Gen_Buggy_NeverTag", "TagModelMeetsProperty", False),
     ("C12_Gen", "C12_Gen_Buggy_WrapNested", "TagModelMeetsProperty", False),
+    # round 2: a handler's "nothing changed" shortcut that does not look at every child position
+    ("C12_Gen", "C12_Gen_Buggy_ShortcutSkipsFunction", "TagModelMeetsProperty", True),
+    ("C12_Gen", "C12_Gen_Buggy_ShortcutSkipsLast", "TagModelMeetsProperty", False),
 ]
 
 
